@@ -473,6 +473,36 @@ def rule_lifecycle(ctx):
                               f"the new table still shows the old comment and VARCHAR length")
 
 
+def rule_lifecycle_keys(ctx):
+    """C09.d2: when a DROP removes side-table rows, it removes the rows of the object the statement names — keyed by the
+    statement's own qualifiers where it has them, by the session's database / schema only where it has none."""
+    prog = ctx.prog
+    n = 0
+    for kind, want in (("DROP TABLE", ("CUR_DB", "CUR_SCHEMA")), ("DROP TABLE @schema", ("CUR_DB", "S9")), ("DROP TABLE @full", ("D9", "S9"))):
+        try:
+            trs = traces(prog, kind)
+        except KeyError:
+            continue
+        for tr in trs:
+            if tr.path.outcome != "return":
+                continue
+            n += 1
+            for sqlv in tr.engine_sql:
+                txt = text_of(sqlv)
+                if not re.search(r"\b(DELETE\s+FROM|UPDATE)\b", txt, re.I) or ("_fs_tables_ext" not in txt and "_fs_columns_ext" not in txt):
+                    continue
+                missing = [w for w in want if "'{" + w + "}'" not in txt]
+                foreign = [w for w in ("CUR_DB", "CUR_SCHEMA") if w not in want and "'{" + w + "}'" in txt]
+                ok = not missing and not foreign
+                ctx.ob("C09.d2", f"{kind}: side-table rows removed are keyed {want}", ok, "fakesnow/cursor.py", f"missing {missing} foreign {foreign}")
+                if not ok:
+                    ctx.violation("C09.d2", "cursor", "FakeSnowflakeCursor._execute", f"{kind}: side-table rows removed under the wrong key",
+                                  "fakesnow/cursor.py",
+                                  f"{kind} removes side-table rows with a key that lacks {missing} / uses the session's {foreign}: dropping "
+                                  f"`s2.orders` while s1 is current wipes the comment and VARCHAR lengths of the still existing `s1.orders`")
+    ctx.floor("C09.d2 DROP traces", n, 3)
+
+
 def rule_quote(ctx):
     """C09.e: free text between single quotes has its quotes doubled."""
     prog = ctx.prog
@@ -787,5 +817,6 @@ RULES = [
     ("C09.b", rule_scope, ("quick", "thorough")),
     ("C09.c", rule_keys, ("quick", "thorough")),
     ("C09.d", rule_lifecycle, ("quick", "thorough")),
+    ("C09.d2", rule_lifecycle_keys, ("quick", "thorough")),
     ("C09.e", rule_quote, ("quick", "thorough")),
 ]
